@@ -46,6 +46,16 @@ def _load_entry_rules(ctx: Ctx) -> None:
     _entry(ctx)
 
 
+def _convert_rules(ctx: Ctx) -> None:
+    """Loading a saved file goes through `MidiFile.convert`: what was written comes back only if every event of every track is
+    routed, once and unconditionally, to its sequence with the running position as its time (C13's rules for `convert`)."""
+    from . import c13
+    expl, assumptions = ctx.explanation, list(ctx.assumptions)
+    c13._main_check(ctx)
+    c13._parse_path(ctx)
+    ctx.explanation, ctx.assumptions = expl, assumptions
+
+
 def _set_channel_rules(ctx: Ctx) -> None:
     """The TRACK field of every emitted token is below the track count because tokenise calls set_channel(i) on track i first:
     set_channel must reach every message (C18's rules for it)."""
@@ -55,7 +65,7 @@ def _set_channel_rules(ctx: Ctx) -> None:
 
 RULE_DEPS = {
     "C02": [_set_channel_rules],
-    "C12": [_normaliser_rules, _insertion_rules, _load_entry_rules],
+    "C12": [_normaliser_rules, _insertion_rules, _load_entry_rules, _convert_rules],
     "C13": [_normaliser_rules, _insertion_rules],
 }
 # every operation property quantifies over sequences that callers build with add_absolute_message: the sorted insertion decides
